@@ -12,7 +12,8 @@ REQUIRED_COUNTERS = ["programs_evaluated", "registry_calls_recorded", "printings
 RULE = ("programs generated as typed ASTs (every built-in of the registry, the identity built-ins vp0..vp3 registered "
         "through the registry's decorator so that any literal can sit at any argument position, nested "
         "calls/lists/dicts as first/middle/last argument, 0-3 arguments, 1-9 statements with rebinding through "
-        "in-place mutators and aliasing, strings containing brackets, commas, both quote kinds, backslashes, '=', "
+        "in-place mutators and aliasing, programs that evaluate the same expression text twice around a rebinding of a "
+        "variable it mentions at nesting depth 1-5, strings containing brackets, commas, both quote kinds, backslashes, '=', "
         "':'), printed twice with different spacing/line breaks around , : = ; and run through aw_query.query on a "
         "memory datastore with three populated buckets; value and registry call trace (name + canonical arguments, "
         "recorded at the registry) are compared with a reference evaluator working on the AST; non-trivial = a call "
@@ -78,7 +79,8 @@ def run_case(case, ctx):
     texts = []
     outs = []
     for i, sd in enumerate(case["spacing_seeds"]):
-        sp = qlang.Spacing(random.Random(sd), style="tight" if (i == 0 and sd % 3 == 0) else None)
+        # a third of the first printings use one uniform style, so that a repeated sub-expression is also repeated TEXT
+        sp = qlang.Spacing(random.Random(sd), style=("tight" if sd % 2 else "spaced") if (i == 0 and sd % 3 == 0) else None)
         text = qlang.render_program(prog, sp, random.Random(sd))
         texts.append(text)
         reg.reset()
